@@ -1360,7 +1360,8 @@ class Interp:
         fr0 = Frame(None, {}, func.module)
         fr0.spec = True
         locals_ = self.bind_args(func, args, kwargs, fr0)
-        recursive = self.reg.is_recursive(func)
+        opaque_ = self.current_contract is not None and func.name in self.current_contract.opaque
+        recursive = self.reg.is_recursive(func) or opaque_
         if not recursive:
             sub = Frame(func, locals_, func.module)
             sub.spec = True
@@ -1400,7 +1401,7 @@ class Interp:
         app = F(*terms)
         wrap = {'Int': VInt, 'Bool': VBool, 'Seq': lambda t: VSeq(t, 'list'), 'Str': VStr}[ret]
         key = (func.name, tuple(t.get_id() for t in terms))
-        if key not in self.path.instances and self.unfold_depth < self.reg.unfold_limit(func):
+        if key not in self.path.instances and not opaque_ and self.unfold_depth < self.reg.unfold_limit(func):
             self.path.instances[key] = app
             self.unfold_depth += 1
             try:
